@@ -1,6 +1,8 @@
 """C16 – timeout wrapper: real `haiway.timeout` on the virtual loop vs `hwmodel timeout`.
 
-case:  d=<n> k=<val|exc|base|self> ig=<0|1> D=<n> c=<n|->
+case:  d=<n> k=<val|exc|base|self|fval|fexc|fbase> ig=<0|1> D=<n> c=<n|->
+   or  multi D=<n> / s=<start> d= k= ig= c= / s=… (overlapping calls through ONE wrapper; c relative to the call's start;
+       observation = the per-call observations joined by " / ", instants relative to each call's start)
   d  instant at which the wrapped function's own delay is over (0: it never suspends)
   k  how it ends: returns a value / raises an Exception / raises a BaseException subclass /
      raises CancelledError itself;   ig=1: it swallows the first cancellation and keeps waiting
@@ -27,7 +29,8 @@ PID = "C16"
 LEAN_COMPONENT = "timeout"
 PROPS_MODULE = "Haiway.Props.C16"
 ANCHORS = ["src/haiway/helpers/timeouted.py"]
-KINDS = ["val", "exc", "base", "self"]
+KINDS = ["val", "exc", "base", "self", "fval", "fexc", "fbase"]
+BASE_KINDS = KINDS[:4]
 RULE = ("case = (function delay d, how it ends in {value, Exception, BaseException subclass, raises CancelledError itself}, "
         "swallows first cancellation or not, timeout D, caller cancellation instant c or none) in exact virtual time; "
         "both tiers: the full grid d in {0,1,3,6} x D in {0,1,2,3,4,6,8} x c in {none,0..9} x 8 profiles (2464 cases, "
@@ -52,6 +55,18 @@ class E(Exception):
 
 class BE(BaseException):
     pass
+
+
+class FE(E):
+    """a falsy exception object (like an empty aggregate defining __len__/__bool__)"""
+
+    def __bool__(self) -> bool:
+        return False
+
+
+class FBE(BE):
+    def __bool__(self) -> bool:
+        return False
 
 
 def parse_full(case: str):
@@ -104,18 +119,33 @@ def corpus():
         "d=5 k=val ig=0 D=3 c=3+1",   # same window after the deadline
         "d=5 k=val ig=1 D=3 c=3+2",
         "d=0 k=val ig=0 D=2 c=0+0",
+        "d=1 k=fexc ig=0 D=3 c=-",    # falsy exception object / falsy result
+        "d=1 k=fbase ig=0 D=3 c=-",
+        "d=0 k=fval ig=0 D=3 c=-",
+        "multi D=3 / s=0 d=1 k=val ig=0 c=- / s=1 d=9 k=val ig=0 c=-",   # early call ends while a later one is pending
+        "multi D=3 / s=0 d=9 k=val ig=0 c=- / s=1 d=1 k=val ig=0 c=-",
+        "multi D=2 / s=0 d=1 k=exc ig=0 c=- / s=0 d=5 k=self ig=1 c=- / s=1 d=0 k=base ig=0 c=0",
     ]
 
 
 def generate(rng, tier):
     cs = [None, *range(10)]
     for d, k, ig, dl, c in itertools.product((0, 1, 3, 6), KINDS, (False, True), (0, 1, 2, 3, 4, 6, 8), cs):
-        yield fmt(d, k, ig, dl, c)
+        if k in BASE_KINDS or c in (None, 0, 2, 3, 7) or tier == "thorough":
+            yield fmt(d, k, ig, dl, c)
     # cancellation placed 0..5 single loop iterations into the instant of the function's end / of the deadline
     for d, k, ig, dl in itertools.product((0, 1, 3, 6), KINDS, (False, True), (0, 1, 2, 3, 4, 6, 8)):
+        if k not in BASE_KINDS and tier == "quick" and dl not in (1, 3, 6):
+            continue
         for c in sorted({d, dl}):
             for ck in range(6):
                 yield fmt(d, k, ig, dl, c, ck)
+    # two overlapping calls through ONE wrapper: an early short one and a later one, all orders of completion
+    for dl, s2, d1, k1, d2, k2, ig2, c2 in itertools.product((2, 4), (0, 1, 2), (1, 3), ("val", "exc"), (0, 2, 9),
+                                                             BASE_KINDS, (False, True), (None, 1, 4)):
+        yield fmt_multi(dl, [(0, d1, k1, False, None), (s2, d2, k2, ig2, c2)])
+    for _ in range(300 if tier == "quick" else 6000):
+        yield gen_multi(rng, rng.choice((2, 2, 3)))
     if tier == "thorough":
         for d, k, ig, dl, c in itertools.product(range(6), KINDS, (False, True), range(6), [None, *range(7)]):
             yield fmt(d, k, ig, dl, c)
@@ -132,23 +162,69 @@ def generate(rng, tier):
         yield fmt(d, rng.choice(KINDS), rng.random() < 0.5, dl, c, ck)
 
 
+def parse_multi(case: str):
+    """`multi D=<n> / s=<start> d= k= ig= c= / …` -> (D, [(s, d, kind, ig, c), …]); c relative to the call's start"""
+    parts = case.split(" / ")
+    head = parts[0].split()
+    if len(head) != 2 or head[0] != "multi" or not head[1].startswith("D=") or len(parts) < 2 or len(parts) > 6:
+        raise ValueError(case)
+    dl = int(head[1][2:])
+    calls = []
+    for p in parts[1:]:
+        f = dict(x.split("=", 1) for x in p.split())
+        s = int(f["s"])
+        d, kind, ig, _dl, c, ck = parse_full(f"d={f['d']} k={f['k']} ig={f['ig']} D={dl} c={f['c']}")
+        if ck is not None or s < 0 or set(f) != {"s", "d", "k", "ig", "c"}:
+            raise ValueError(case)
+        calls.append((s, d, kind, ig, c))
+    return dl, calls
+
+
+def fmt_multi(dl, calls) -> str:
+    return " / ".join([f"multi D={dl}"] + [f"s={s} d={d} k={k} ig={int(ig)} c={'-' if c is None else c}"
+                                            for s, d, k, ig, c in calls])
+
+
+def is_multi(case: str) -> bool:
+    return case.startswith("multi ")
+
+
+def single_of(dl, call) -> str:
+    _s, d, k, ig, c = call
+    return fmt(d, k, ig, dl, c)
+
+
+VALUE_OF_KIND = {"val": "v", "fval": 0}
+
+
 def run_real(case: str) -> str:
     from haiway import timeout
 
     try:
-        d, kind, ig, dl, c, ck = parse_full(case)
+        if is_multi(case):
+            dl, calls = parse_multi(case)
+            ck = None
+            multi = True
+        else:
+            d, kind, ig, dl, c, ck = parse_full(case)
+            calls = [(0, d, kind, ig, c)]
+            multi = False
     except Exception:  # noqa: BLE001
         return "bad-case"
     loop = vloop.new_loop()
     try:
         handler_calls = []
         loop.set_exception_handler(lambda _l, ctx: handler_calls.append(ctx) if "handle" in ctx else None)
-        info = {"started": False, "seen": 0, "ended": None}
         clock = vloop.CLOCK
+        n = len(calls)
+        info = [{"started": False, "seen": 0, "ended": None, "task": None} for _ in range(n)]
 
-        @timeout(dl)
-        async def fn():
-            info["started"] = True
+        @timeout(dl)          # ONE wrapper for all calls of the case
+        async def fn(i: int):
+            me = info[i]
+            _s, d, kind, ig, _c = calls[i]
+            me["started"] = True
+            me["task"] = asyncio.current_task()
             begin = clock.now
             remaining = d
             ignored = False
@@ -157,77 +233,136 @@ def run_real(case: str) -> str:
                     await asyncio.sleep(remaining)
                     break
                 except asyncio.CancelledError:
-                    info["seen"] += 1
+                    me["seen"] += 1
                     if ig and not ignored:
                         ignored = True
                         remaining = d - (clock.now - begin)
                         continue
-                    info["ended"] = "cancelled"
+                    me["ended"] = "cancelled"
                     raise
-            info["ended"] = "finished"
-            if kind == "val":
-                return "v"
+            me["ended"] = "finished"
+            if kind in VALUE_OF_KIND:
+                return VALUE_OF_KIND[kind]
             if kind == "exc":
                 raise E("e")
+            if kind == "fexc":
+                raise FE("e")
             if kind == "base":
                 raise BE("b")
+            if kind == "fbase":
+                raise FBE("b")
             raise asyncio.CancelledError()
 
-        def status() -> str:
-            if info["ended"]:
-                return info["ended"]
-            return f"running:{info['seen']}" if info["started"] else "unstarted"
+        def status(i: int) -> str:
+            me = info[i]
+            if me["ended"]:
+                return me["ended"]
+            return f"running:{me['seen']}" if me["started"] else "unstarted"
+
+        def fn_over(i: int) -> bool:
+            return bool(info[i]["ended"]) or not info[i]["started"]
 
         t0 = clock.now
-        when = {}
-        caller = loop.create_task(fn())
-        caller.add_done_callback(lambda _t: when.setdefault("t", clock.now - t0))
-        acc = {}
-        if c is not None and ck is None:
-            loop.call_at(t0 + c, lambda: acc.setdefault("v", caller.cancel()))
-        at = None
-        tm = None
-        for t in sorted({0, d, dl} | ({c} if c is not None else set())):
-            if ck is not None and t == c:
-                # everything before instant c is over; enter the instant, run exactly ck loop iterations, cancel
+        callers: list = [None] * n
+        when: list = [None] * n
+        acc: list = [None] * n
+        at: list = [None] * n
+        tm: list = [None] * n
+
+        def start(i: int) -> None:
+            callers[i] = loop.create_task(fn(i))
+            callers[i].add_done_callback(lambda _t, i=i: when.__setitem__(i, clock.now - t0 - calls[i][0]))
+
+        def cancel(i: int) -> None:
+            if acc[i] is None and callers[i] is not None:
+                acc[i] = callers[i].cancel()
+
+        instants = {0}
+        for s, d, _k, _ig, c in calls:
+            instants |= {s, s + d, s + dl} | ({s + c} if c is not None else set())
+        own_timers = []   # (absolute instant) of the harness's own cancel timers
+        if not multi:
+            start(0)
+        for i, (s, _d, _k, _ig, c) in enumerate(calls):
+            if c is not None and ck is None:
+                loop.call_at(t0 + s + c, cancel, i)
+                own_timers.append(s + c)
+        last = max(instants)
+        for t in sorted(instants):
+            if multi:
+                # everything before instant t is over: enter it and start the calls due now (in case order)
+                clock.now = max(clock.now, t0 + t)
+                for i, call in enumerate(calls):
+                    if call[0] == t and callers[i] is None:
+                        start(i)
+            if ck is not None and t == calls[0][4]:
+                # enter the instant, run exactly ck single loop iterations, cancel from outside
                 clock.now = max(clock.now, t0 + t)
                 for _ in range(ck):
                     loop.call_soon(loop.stop)
                     loop.run_forever()
-                acc["v"] = caller.cancel()
+                cancel(0)
             loop.advance_to(t0 + t)
-            if at is None and caller.done():
-                at = status()
-            if tm is None and caller.done() and (info["ended"] or not info["started"]):
-                own = 1 if (c is not None and ck is None and c > t) else 0   # the harness's own cancel timer
-                tm = loop.pending_timers() - own
+            for i in range(n):
+                if callers[i] is None:
+                    continue
+                if at[i] is None and callers[i].done():
+                    at[i] = status(i)
+                if not multi and tm[i] is None and callers[i].done() and fn_over(i):
+                    tm[i] = loop.pending_timers() - sum(1 for x in own_timers if x > t)
+            if multi and t == last:
+                # all calls are over by now (every function's end is an instant): no wrapper timer may be left
+                left = loop.pending_timers()
+                for i in range(n):
+                    if callers[i] is not None and callers[i].done() and fn_over(i):
+                        tm[i] = left
         loop.quiesce(advance=True)
-        if at is None and caller.done():
-            at = status()
-        if tm is None and caller.done() and (info["ended"] or not info["started"]):
-            tm = loop.pending_timers()
-        if not caller.done():
-            out = "hang@-"
-        else:
-            if caller.cancelled():
-                o = "cancelled"
+        for i in range(n):
+            if callers[i] is not None and at[i] is None and callers[i].done():
+                at[i] = status(i)
+            if not multi and tm[i] is None and callers[i].done() and fn_over(i):
+                tm[i] = loop.pending_timers()
+        alive = sum(1 for t in asyncio.all_tasks(loop) if not t.done())
+        pends = []
+        for i in range(n):
+            p = 0
+            if callers[i] is not None and not callers[i].done():
+                p += 1
+            if info[i]["task"] is not None and not info[i]["task"].done():
+                p += 1
+            pends.append(p)
+        if alive > sum(pends):
+            pends[-1] += alive - sum(pends)   # tasks nobody accounts for
+        outs = []
+        for i in range(n):
+            caller = callers[i]
+            kind = calls[i][2]
+            if caller is None or not caller.done():
+                out = "hang@-"
             else:
-                exc = caller.exception()
-                if exc is None:
-                    o = "res" if caller.result() == "v" else "other:value"
-                elif type(exc) is E:
-                    o = "exc"
-                elif type(exc) is BE:
-                    o = "base"
-                elif isinstance(exc, TimeoutError):
-                    o = "timeout"
+                if caller.cancelled():
+                    o = "cancelled"
                 else:
-                    o = "other:" + type(exc).__name__
-            t = when.get("t")
-            out = f"{o}@{int(t) if t is not None and t == int(t) else t}"
-        pend = sum(1 for t in asyncio.all_tasks(loop) if not t.done())
-        end = info["ended"] or ("running" if info["started"] else "unstarted")
-        return f"out={out} at={at or '-'} end={end} seen={info['seen']} pend={pend} handler={len(handler_calls)} tm={'-' if tm is None else tm} acc={'-' if 'v' not in acc else int(bool(acc['v']))}"
+                    exc = caller.exception()
+                    if exc is None:
+                        r = caller.result()
+                        want = VALUE_OF_KIND.get(kind, "v")
+                        o = "res" if (type(r) is type(want) and r == want) else "other:value"
+                    elif type(exc) is (FE if kind == "fexc" else E):
+                        o = "exc"
+                    elif type(exc) is (FBE if kind == "fbase" else BE):
+                        o = "base"
+                    elif isinstance(exc, TimeoutError):
+                        o = "timeout"
+                    else:
+                        o = "other:" + type(exc).__name__
+                w = when[i]
+                out = f"{o}@{int(w) if w is not None and w == int(w) else w}"
+            end = info[i]["ended"] or ("running" if info[i]["started"] else "unstarted")
+            outs.append(f"out={out} at={at[i] or '-'} end={end} seen={info[i]['seen']} pend={pends[i]} "
+                        f"handler={len(handler_calls)} tm={'-' if tm[i] is None else tm[i]} "
+                        f"acc={'-' if acc[i] is None else int(bool(acc[i]))}")
+        return " / ".join(outs)
     except vloop.NoQuiescence:
         return "HANG(no-quiescence)"
     finally:
@@ -237,10 +372,10 @@ def run_real(case: str) -> str:
 # ---------------------------------------------------------------------------------------------
 # comparison: ties are compared by membership in the model's admissible set
 
-_ALTS: dict[str, list[str]] = {}
+_ALTS: dict[str, list[list[str]]] = {}
 
 
-def has_tie(case: str) -> bool:
+def has_tie_single(case: str) -> bool:
     try:
         d, _k, _ig, dl, c = parse(case)
     except Exception:  # noqa: BLE001
@@ -251,30 +386,45 @@ def has_tie(case: str) -> bool:
     #  outcomes of every position of the cancellation among that instant's callbacks)
 
 
+def has_tie(case: str) -> bool:
+    if is_multi(case):
+        try:
+            dl, calls = parse_multi(case)
+        except Exception:  # noqa: BLE001
+            return False
+        return any(has_tie_single(single_of(dl, c)) for c in calls)
+    return has_tie_single(case)
+
+
+def _alts_of(model_out: str) -> list[list[str]]:
+    """per call: the admissible observation lines"""
+    return [p[4:].split(" || ") if p.startswith("ALT ") else [p] for p in model_out.split(" / ")]
+
+
 def canon(case: str, out: str) -> str:
-    """Model lines of tie cases read `ALT a || b`: the implementation's line must be one of them.
+    """Model lines of tie cases read `ALT a || b` (per call): the implementation's line must be one of them.
     (Two environment events at one virtual instant: their order on the real loop is the order in
     which the timers were armed, which a harmless rewrite may change and on which the property is
     silent.)  For cases without a tie an `ALT` line is compared literally, i.e. it disagrees."""
-    if out.startswith("ALT "):
+    if "ALT " in out:
         if not has_tie(case):
             return out
-        _ALTS[case] = out[4:].split(" || ")
+        _ALTS[case] = _alts_of(out)
         return "TIE"
     if has_tie(case):
         alts = _ALTS.get(case)
         if alts is None:
-            m = core.run_model(LEAN_COMPONENT, [case])[0]
-            alts = m[4:].split(" || ") if m.startswith("ALT ") else [m]
+            alts = _alts_of(core.run_model(LEAN_COMPONENT, [case])[0])
             _ALTS[case] = alts
-        return "TIE" if out in alts else out
+        parts = out.split(" / ")
+        return "TIE" if len(parts) == len(alts) and all(p in a for p, a in zip(parts, alts)) else out
     return out
 
 
 # ---------------------------------------------------------------------------------------------
 # the property, on the implementation's observation
 
-OUTCOME_OF_KIND = {"val": "res", "exc": "exc", "base": "base", "self": "cancelled"}
+OUTCOME_OF_KIND = {"val": "res", "exc": "exc", "base": "base", "self": "cancelled", "fval": "res", "fexc": "exc", "fbase": "base"}
 
 
 def fields(out: str) -> dict[str, str] | None:
@@ -288,7 +438,7 @@ def fields(out: str) -> dict[str, str] | None:
         return None
 
 
-def monitor(case: str, out: str) -> list[str]:
+def monitor_single(case: str, out: str) -> list[str]:
     try:
         d, kind, _ig, dl, c = parse(case)
     except Exception:  # noqa: BLE001
@@ -333,7 +483,36 @@ def monitor(case: str, out: str) -> list[str]:
     return sorted(set(fails))
 
 
+def monitor(case: str, out: str) -> list[str]:
+    """The property per call.  Overlapping calls through one wrapper are judged one by one, each against its own
+    (delay, ending, timeout, cancellation), instants relative to its own start."""
+    if not is_multi(case):
+        return monitor_single(case, out)
+    try:
+        dl, calls = parse_multi(case)
+    except Exception:  # noqa: BLE001
+        return []
+    parts = out.split(" / ")
+    if len(parts) != len(calls):
+        return ["timeout.no-observation:" + out[:30]]
+    fails = set()
+    for call, part in zip(calls, parts):
+        fails |= set(monitor_single(single_of(dl, call), part))
+    return sorted(fails)
+
+
+def overlapping(dl, calls) -> bool:
+    spans = [(s, s + max(min(d, dl), 1)) for s, d, _k, _ig, _c in calls]
+    return any(a[0] < b[1] and b[0] < a[1] for i, a in enumerate(spans) for b in spans[i + 1:])
+
+
 def nontrivial(case: str, out: str) -> bool:
+    if is_multi(case):
+        try:
+            dl, calls = parse_multi(case)
+        except Exception:  # noqa: BLE001
+            return False
+        return overlapping(dl, calls)
     try:
         d, kind, _ig, dl, c = parse(case)
     except Exception:  # noqa: BLE001
@@ -342,6 +521,20 @@ def nontrivial(case: str, out: str) -> bool:
 
 
 def classify(case: str, out: str):
+    if is_multi(case):
+        try:
+            dl, calls = parse_multi(case)
+        except Exception:  # noqa: BLE001
+            yield "bad-case"
+            return
+        yield f"calls:{len(calls)}"
+        if overlapping(dl, calls):
+            yield "calls:overlapping"
+        for part in out.split(" / "):
+            f = fields(part)
+            if f:
+                yield "out:" + f["okind"]
+        return
     try:
         d, kind, ig, dl, c = parse(case)
     except Exception:  # noqa: BLE001
@@ -364,7 +557,36 @@ def classify(case: str, out: str):
             yield "obs:cancellation-seen-inside"
 
 
+def gen_multi(rng, n: int) -> str:
+    dl = rng.randint(1, 6)
+    calls = []
+    for _ in range(n):
+        c = None if rng.random() < 0.6 else rng.randint(0, 7)
+        calls.append((rng.randint(0, 4), rng.randint(0, 9), rng.choice(KINDS), rng.random() < 0.3, c))
+    return fmt_multi(dl, calls)
+
+
 def mutate(rng, case: str) -> str:
+    if is_multi(case):
+        try:
+            dl, calls = parse_multi(case)
+        except Exception:  # noqa: BLE001
+            return gen_multi(rng, 2)
+        i = rng.randrange(len(calls))
+        if rng.random() < 0.3:
+            return single_of(dl, calls[i])
+        s, d, k, ig, c = calls[i]
+        r = rng.randrange(4)
+        if r == 0:
+            s = max(0, s + rng.choice((-1, 1)))
+        elif r == 1:
+            d = max(0, d + rng.choice((-2, -1, 1, 2)))
+        elif r == 2:
+            k = rng.choice(KINDS)
+        else:
+            dl = max(0, dl + rng.choice((-1, 1)))
+        calls[i] = (s, d, k, ig, c)
+        return fmt_multi(dl, calls)
     try:
         d, k, ig, dl, c, ck = parse_full(case)
     except Exception:  # noqa: BLE001
@@ -386,6 +608,25 @@ def mutate(rng, case: str) -> str:
 
 
 def shrink(case: str):
+    if is_multi(case):
+        try:
+            dl, calls = parse_multi(case)
+        except Exception:  # noqa: BLE001
+            return
+        if len(calls) > 2:
+            for i in range(len(calls)):
+                yield fmt_multi(dl, calls[:i] + calls[i + 1:])
+        for call in calls:
+            yield single_of(dl, call)
+        for i, (s, d, k, ig, c) in enumerate(calls):
+            for s2, d2, k2, ig2, c2 in ((max(s - 1, 0), d, k, ig, c), (s, d // 2, k, ig, c), (s, max(d - 1, 0), k, ig, c),
+                                         (s, d, "val", ig, c), (s, d, k, False, c), (s, d, k, ig, None)):
+                cand = calls[:i] + [(s2, d2, k2, ig2, c2)] + calls[i + 1:]
+                if cand != calls:
+                    yield fmt_multi(dl, cand)
+        if dl > 1:
+            yield fmt_multi(dl - 1, calls)
+        return
     try:
         d, k, ig, dl, c, ck = parse_full(case)
     except Exception:  # noqa: BLE001
